@@ -569,3 +569,43 @@ def decode_realistic(rnd, k=1, only=None):
     for _ in range(k):
         _label, data = rnd.choice(pool)
         lib_unmarshal(data)
+
+
+class Retained:
+    """Objects the library returned earlier, kept by their owner: whatever is
+    decoded or constructed LATER must not change what they report (state
+    shared through a class attribute, a pooled buffer or a reused object is
+    invisible to a single round trip).  `summ(obj)` is evaluated when the
+    object is added and again at every check."""
+
+    def __init__(self, cap=48, every=16):
+        self.items = []
+        self.cap, self.every, self.n = cap, every, 0
+
+    def add(self, obj, summ, label, rec, mech):
+        try:
+            then = summ(obj)
+        except Exception:
+            return
+        self.items.append((obj, then, summ, label))
+        if len(self.items) > self.cap:
+            del self.items[RND.randrange(len(self.items) // 2)]
+        self.n += 1
+        if self.n % self.every == 0:
+            self.check(rec, mech)
+
+    def check(self, rec, mech):
+        for obj, then, summ, label in self.items:
+            try:
+                now = summ(obj)
+            except Exception as e:
+                now = 'raised %r' % (e,)
+            rec.count('retained_results_rechecked')
+            if now != then:
+                rec.violation(mech, 'an object returned earlier (%s) now '
+                              'reports %s; when it was returned it reported '
+                              '%s' % (label, str(now)[:200], str(then)[:200]),
+                              {'retained': label})
+                self.items = []
+                return False
+        return True
